@@ -44,7 +44,7 @@ CLAIMED = {
    text="TLC proves on the model, for every transaction count up to the bound and every key pattern, that the reference projection tiles the block with kept transactions and aligned complete subtrees and that the root recomputed from the lite items equals the full root (and that a misaligned placeholder is rejected). The same cases are executed on the real code: real signed blocks, generate_lite_block, serialisation, deserialisation, generate() and the real merkle recomputation; the monitor checks tiling/alignment, leaf hashes after the wire trip, presence of every touching transaction, identity of id/hash/signature/header and recomputability of the commitment.",
    note="exhaustive for n<=9 (quick) / n<=11 (thorough) incl. variants; random patterns up to 64 transactions; merging strategy left free"),
  "C08": dict(cat="model_checking", design="§4 C08", technique="TLC on MC_Work.tla (case space of path shape x work relative to requirement x elapsed-time class, design-level invariants on the reference definitions) + TLC-generated cases replayed on the real node + trace validation against LedgerTrace.tla (C08 checks)",
-   text="Ledger.tla defines the work a transaction delivers to a creator (nothing without a contiguous path ending at the creator, the fee halved rounding up per further hop), the requirement (burn fee / elapsed ms, zero from two heartbeats on) and payout eligibility. TLC checks monotonicity/zero/shape statements on the definitions and emits all 378 gating cases (9 path shapes incl. broken, self-hop, forged hop signature, not ending at the creator x work = requirement-1/0/+1 x 7 elapsed-time classes x 2 ticket seeds); the real node runs them, 192+ lottery scenarios (ticket seeds over blocks of routed fee-paying transactions) and economy scenarios. The monitor recomputes work from inputs, outputs and hops of every wound block (accepted-with-insufficient-routing-work, block-work-differs-from-definition, bad-routing-path accepted), checks every output of every fee transaction against the eligible keys of the blocks being paid and their collected fees, and checks samples of the real requirement function (boundary grid up to 2^64-1) for monotonicity, the zero point and agreement with the definition.",
+   text="Ledger.tla defines the work a transaction delivers to a creator (nothing without a contiguous path ending at the creator, the fee halved rounding up per further hop), the requirement (burn fee / elapsed ms, zero from two heartbeats on) and payout eligibility. TLC checks monotonicity/zero/shape statements on the definitions and emits all 462 gating cases (11 path shapes incl. broken, self-hop at the first / middle / last hop, forged hop signature, not ending at the creator x work = requirement-1/0/+1 x 7 elapsed-time classes x 2 ticket seeds); the real node runs them, 192+ lottery scenarios (ticket seeds over blocks of routed fee-paying transactions) and economy scenarios. The monitor recomputes work from inputs, outputs and hops of every wound block (accepted-with-insufficient-routing-work, block-work-differs-from-definition, bad-routing-path accepted), checks every output of every fee transaction against the eligible keys of the blocks being paid and their collected fees, and checks samples of the real requirement function (boundary grid up to 2^64-1) for monotonicity, the zero point and agreement with the definition.",
    note="monotonicity of the floating-point requirement function is decided on a sampled grid only; staking payouts off"),
  "C09": dict(cat="translation_validation", design="§4 C09", technique="TLA+ reference layouts (Wire.tla) evaluated by TLC on the fields of every generated value and compared with the real encoder's bytes; MC_Wire self-check of the layouts",
    text="Wire.tla is an independent description of every wire record (slip, hop, transaction, block full/header, every peer message tag, handshake, chain requests, ghost-chain sync, API messages, key lists, version, ticket). For every generated value (all enum variants, 0/1/254/255 slips, empty and 64 KiB payloads, 0..8 hops, boundary integers, distinct non-zero fields) TLC computes the reference encoding from the struct fields and compares it with the bytes of the real encoder; the re-decoded fields, the predicted size, re-encoding, hash and signature verdict across the wire are compared as well.",
